@@ -169,6 +169,11 @@ def collect(prog, target_id):
 
 def gen_expr(r, names, depth):
     env = names.env
+    if 'nb1&' in names.scalars and 'nb2!' in names.scalars and r.random() < 0.15:
+        a, b = ['var', 'nb1&'], ['var', 'nb2!']
+        if r.random() < 0.5:
+            a, b = b, a
+        return ['bin', r.choice(CMP), a, b]
 
     def leaf(want=None):
         c = []
@@ -179,6 +184,13 @@ def gen_expr(r, names, depth):
             if bs is None:
                 continue
             idx = [['lit', '%', r.randint(lb, ub)] for lb, ub in bs]
+            if r.random() < 0.2:
+                # a subscript that is not a whole number: converted like any
+                # other value (round half to even), so x.5 goes to the even side
+                d = r.randrange(len(bs))
+                j = idx[d][2]
+                f = j + r.choice((-0.5, 0.5)) if j % 2 == 0 else j + r.choice((-0.25, 0.25))
+                idx[d] = ['lit', r.choice('!#'), f]
             if t.startswith('T:'):
                 for path, lt in env.leaves(t):
                     c.append(['fld', ['idx', n, idx], path])
@@ -302,6 +314,17 @@ def build(params):
                                  devfuncs=False, procs=r.random() < 0.75, as_collide=0.8, join=0,
                                  records=r.random() < 0.7, arrays=r.random() < 0.8)
     script = dict(sc['script'], deltas=[0.0])
+    if r.random() < 0.5:
+        # two variables whose values are neighbours across types: a LONG that
+        # no SINGLE can hold exactly, and the SINGLE next to it
+        main = sc['ast']['main']
+        at = 0
+        while at < len(main) and main[at]['k'] in ('dim', 'const', 'label', 'static'):
+            at += 1
+        main[at:at] = [{'k': 'let', 'lv': ['var', 'nb1&'], 'e': ['lit', '&', 16777217]},
+                       {'k': 'let', 'lv': ['var', 'nb2!'], 'e': ['lit', '!', 16777216.0]}]
+        number_stmts(sc['ast'])
+        sc['text'], _ = to_text(sc['ast'], final_newline=sc['text'].endswith('\n'))
     return {'property': PROP, 'run_seed': s, 'source': sc['source'], 'text': sc['text'],
             'ast': sc['ast'], 'script': script, 'meta': {},
             'config': {'opt': r.choice((0, 1, 2))}, 'stops': None, 'pick_seed': H(s, 'stops')}
